@@ -23,7 +23,7 @@ def sel_proof(pred):
 UNIT = Unit(
     name="mint", uses="group_core_axioms",
     prelude=["core.rs", "raw.rs", "iter.rs", "crypto.rs", "state_abs.rs", "num.rs", "melswap.rs"],
-    lemmas=["sums.rs", "iterlem.rs", "coinsview.rs", "tips.rs", "apply.rs", "mint.rs"],
+    lemmas=["sums.rs", "iterlem.rs", "coinsview.rs", "tips.rs", "apply.rs", "stateinv.rs", "mint.rs"],
     items=[
         TypeItem(S, "struct", "UnsealedState"),
         Raw("use num::{BigInt, BigRational, rational::Ratio};"),
@@ -54,5 +54,49 @@ UNIT = Unit(
            ensures=[C("selected", "selected(state.transactions@, res@, |tx: Transaction| is_withdraw_req(*state, tx))", "C15", "C01")],
            rewrites=[("ANF", "collect", 0, 4, {2: sel_proof("is_withdraw_req")})],
            closures=[Closure(0, "tx: Transaction", "(r: Option<Transaction>)", ensures=[C("pred", "r == (if is_withdraw_req(*state, tx) { Some(tx) } else { None::<Transaction> })", "C15")])]),
+        Fn(C_, "insert_coin", impl="CoinMapping", mode="assume", **cm_insert_coin()),
+        Fn(SM, "insert", impl="SmtMapping", mode="assume", wrap=SMT_WRAP, **smt_insert()),
+        Fn(S, "tip_906", impl="UnsealedState", mode="assume", **st_tip(830000)),
+        Fn(M, "process_swaps_for_single_pool", home="C15", implicit_props=("C09", "C15", "C01"),
+           requires=[C("reqs", "swaps_pre(old(swaps)@, *pool)"),
+                     C("pool", "old(state).pools@.contains_key(*pool) && pool_live(old(state).pools@[*pool])"),
+                     C("inv", "old(state).coins.wf() && (spec_tip906(*old(state)) ==> counts_ok(old(state).coins@)) && origin_ok(old(state).coins@.coins)")],
+           ensures=[C("pool", """({ let tl = side_total(old(swaps)@, pool.left, old(swaps)@.len() as int); let tr = side_total(old(swaps)@, pool.right, old(swaps)@.len() as int);
+                        let p0 = old(state).pools@[*pool]; let l = sat128(p0.lefts + tl); let r = sat128(p0.rights + tr);
+                        final(state).pools@.dom() == old(state).pools@.dom().insert(*pool)
+                        && (forall|k: PoolKey| k != *pool && old(state).pools@.contains_key(k) ==> #[trigger] final(state).pools@[k] == old(state).pools@[k])
+                        && final(state).pools@[*pool].lefts as int == l - swap_out(tr, r, l) && final(state).pools@[*pool].rights as int == r - swap_out(tl, l, r)
+                        && final(state).pools@[*pool].liqs == p0.liqs && pool_live(final(state).pools@[*pool]) })""", "C15", "C01", "C16"),
+                    C("coins", """({ let tl = side_total(old(swaps)@, pool.left, old(swaps)@.len() as int); let tr = side_total(old(swaps)@, pool.right, old(swaps)@.len() as int);
+                        let p0 = old(state).pools@[*pool]; let l = sat128(p0.lefts + tl); let r = sat128(p0.rights + tr);
+                        swaps_settled(old(state).coins@.coins, final(state).coins@.coins, old(swaps)@, old(swaps)@.len() as int, *pool, swap_out(tr, r, l), swap_out(tl, l, r), tl, tr, old(state).height) })""", "C15", "C01"),
+                    C("frame", "pool_phase_frame(*old(state), *final(state)) && final(state).fee_pool == old(state).fee_pool", "C15", "C17"),
+                    C("inv", "final(state).coins.wf() && (spec_tip906(*old(state)) ==> counts_ok(final(state).coins@))", "C20")],
+           rewrites=[("R3", 0), ("ROOT", "iter", 0, "vec_iter"), ("ANF", "fold", 0, 2, {}, "L"), ("ROOT", "iter", 0, "vec_iter"), ("ANF", "fold", 1, 2, {}, "R")],
+           injects=[Inject("entry", "let ghost swaps0 = swaps@; let ghost st0 = *state; let ghost c0 = state.coins@.coins; let ghost n0 = swaps@.len() as int;"),
+                    Inject(("after_let", "total_lefts"), """proof { let accs = choose|accs: Seq<u128>| #[trigger] fold_decided(__clL1, __cL0@, 0u128, accs) && total_lefts == accs[__cL0@.len() as int];
+                        lemma_fold_side(swaps0, pool.left, __cL0@, accs, n0); }"""),
+                    Inject(("after_let", "total_rights"), """proof { let accs = choose|accs: Seq<u128>| #[trigger] fold_decided(__clR1, __cR0@, 0u128, accs) && total_rights == accs[__cR0@.len() as int];
+                        lemma_fold_side(swaps0, pool.right, __cR0@, accs, n0); }"""),
+                    Inject(("before", "let __n ="), """let ghost tl = side_total(swaps0, pool.left, n0); let ghost tr = side_total(swaps0, pool.right, n0);
+                        let ghost lw = left_withdrawn as int; let ghost rw = right_withdrawn as int;
+                        proof { assert(swaps_settled(c0, c0, swaps0, 0, *pool, lw, rw, tl, tr, st0.height)); }""")],
+           loops=[Loop(0,
+               body_entry="""let ghost cb = state.coins@.coins; let ghost i = __i as int;
+                   proof { lemma_side_total_ge(swaps0, pool.left, n0, i); lemma_side_total_ge(swaps0, pool.right, n0, i); assert(swaps@[i] == swaps0[i]); }""",
+               body_exit="""proof { let d = state.coins@.coins[cid(swaps0[i], 0)];
+                   lemma_origin_insert(cb, swaps0[i], 0, d);
+                   lemma_swaps_settled_step(c0, cb, swaps0, i, *pool, lw, rw, tl, tr, st0.height, d); }""",
+               invariants=[
+                   C("len", "swaps@.len() == n0 && __n == n0 && n0 == swaps0.len() && swaps_pre(swaps0, *pool) && (forall|j: int| __i <= j < n0 ==> #[trigger] swaps@[j] == swaps0[j])", "C15"),
+                   C("totals", "total_lefts as int == tl && total_rights as int == tr && tl == side_total(swaps0, pool.left, n0) && tr == side_total(swaps0, pool.right, n0) && lw == left_withdrawn as int && rw == right_withdrawn as int", "C15"),
+                   C("settled", "swaps_settled(c0, state.coins@.coins, swaps0, __i as int, *pool, lw, rw, tl, tr, st0.height)", "C15", "C01"),
+                   C("inv", "state.coins.wf() && (spec_tip906(st0) ==> counts_ok(state.coins@)) && origin_ok(state.coins@.coins)", "C20"),
+                   C("frame", "pool_phase_frame(st0, *state) && state.fee_pool == st0.fee_pool && state.pools == st0.pools && state.height == st0.height && state.network == st0.network", "C15"),
+               ])],
+           closures=[Closure(0, "tx: &Transaction", "(r: CoinValue)", requires=[C("has0", "tx.outputs@.len() > 0")], ensures=[C("left", "r.0 as int == req_value(*tx, pool.left)", "C15")]),
+                     Closure(1, "a: u128, b: CoinValue", "(r: u128)", ensures=[C("satl", "r as int == sat128(a + b.0)", "C15")]),
+                     Closure(2, "tx: &Transaction", "(r: CoinValue)", requires=[C("has0r", "tx.outputs@.len() > 0")], ensures=[C("right", "r.0 as int == req_value(*tx, pool.right)", "C15")]),
+                     Closure(3, "a: u128, b: CoinValue", "(r: u128)", ensures=[C("satr", "r as int == sat128(a + b.0)", "C15")])]),
     ],
 )
